@@ -515,7 +515,6 @@ impl Worksheet {
                 style: cols[index].style,
                 hidden: cols[index].hidden,
             };
-            col.style = cols[index].style;
             cols.remove(index);
             if column != max {
                 cols.insert(index, post);
